@@ -147,6 +147,14 @@ class Engine:
     def statement(self, s: ast.stmt, state) -> Completions:
         out = Completions()
         self._visit(s, state)
+        if isinstance(s, ast.Expr) and isinstance(s.value, ast.Call) and (
+                (isinstance(s.value.func, ast.Name) and s.value.func.id in ("exit", "quit")) or
+                (isinstance(s.value.func, ast.Attribute) and s.value.func.attr == "exit" and isinstance(s.value.func.value, ast.Name)
+                 and s.value.func.value.id == "sys")):
+            # exit() never returns: it is a raise of SystemExit
+            self._expr_raises(s, state, out)
+            out.raises.append((self.a.stmt(s, state), "SystemExit", s))
+            return out
         if isinstance(s, (ast.Assign, ast.AugAssign, ast.AnnAssign, ast.Expr, ast.Pass, ast.Delete, ast.Global,
                           ast.Nonlocal, ast.Import, ast.ImportFrom, ast.FunctionDef, ast.AsyncFunctionDef, ast.ClassDef)):
             self._expr_raises(s, state, out)
